@@ -404,9 +404,30 @@ fn render(err: &Error, fm: Fm, mode: SnippetMode) -> String {
     })
 }
 
+/// byte offset in `text` of 1-based (line, column-in-characters); a leading BOM is not counted in
+/// the coordinates but is part of the text; None when the position is not inside the text
+fn byte_offset_of(text: &str, line: usize, col: usize) -> Option<usize> {
+    let start = if text.starts_with('\u{feff}') { '\u{feff}'.len_utf8() } else { 0 };
+    let (mut l, mut c) = (1usize, 1usize);
+    for (i, ch) in text[start..].char_indices() {
+        if l == line && c == col {
+            return Some(start + i);
+        }
+        if ch == '\n' {
+            l += 1;
+            c = 1;
+        } else {
+            c += 1;
+        }
+    }
+    if l == line && c == col { Some(text.len()) } else { None }
+}
+
 struct MietteOut {
     message: String,
     labels: Vec<String>,
+    /// byte offsets of the labels of the top-level diagnostic
+    label_offsets: Vec<usize>,
     source: Option<String>,
     graphical: Result<String, ()>,
     narrated: Result<String, ()>,
@@ -439,6 +460,7 @@ fn render_miette(err: &Error, text: &str, fm: Fm) -> MietteOut {
     let mut message = String::new();
     let mut labels = vec![];
     collect_diag(d, &mut message, &mut labels);
+    let label_offsets: Vec<usize> = d.labels().map(|ls| ls.map(|l| l.offset()).collect()).unwrap_or_default();
     let source = d.source_code().and_then(|sc| {
         let total = text.len();
         sc.read_span(&miette::SourceSpan::new(0.into(), total), 0, 0)
@@ -450,7 +472,7 @@ fn render_miette(err: &Error, text: &str, fm: Fm) -> MietteOut {
     let graphical = gh.render_report(&mut g, d).map(|_| g).map_err(|_| ());
     let mut n = String::new();
     let narrated = NarratableReportHandler::new().render_report(&mut n, d).map(|_| n).map_err(|_| ());
-    MietteOut { message, labels, source, graphical, narrated }
+    MietteOut { message, labels, label_offsets, source, graphical, narrated }
 }
 
 
@@ -1353,6 +1375,25 @@ fn check_with(c: &Case, f: &Facts) -> Result<Notes, String> {
         }
         if let Some(s) = &m.source {
             scan(&format!("{tag} source code"), s)?;
+        }
+        // the label marks the reported position: some label of the top-level diagnostic starts at
+        // the byte of the source text (as handed to the adapter) that (line, column) denotes
+        // (not judged: text with a NUL, which ends the input for the parser and gives odd
+        // end-of-input coordinates; reader input with a multi-byte character inside a comment,
+        // where the parser dependency's streaming input counts bytes - open C09 finding)
+        let comment_mb = c.text.lines().any(|ln| ln.find('#').is_some_and(|i| !ln[i..].is_ascii()));
+        // (nor: a directive line with multi-byte text - open C16 finding, in-memory input too -
+        // and the other Unicode line breaks NEL / LS / PS, which the model does not split at)
+        let directive_mb = c.text.lines().any(|ln| ln.trim_start().starts_with('%') && !ln.is_ascii());
+        let other_breaks = c.text.contains(['\u{85}', '\u{2028}', '\u{2029}']);
+        if layout_ok && !validation && !m.label_offsets.is_empty() && !c.text.contains('\0') && !(reader && comment_mb) && !directive_mb && !other_breaks {
+            if let Some((l, col)) = f.loc {
+                if let Some(want) = byte_offset_of(&c.text, l, col) {
+                    if !m.label_offsets.contains(&want) {
+                        return Err(format!("{tag} no label starts at byte {want} = line {l} column {col} of the source; labels start at {:?}", m.label_offsets));
+                    }
+                }
+            }
         }
         match &m.graphical {
             Ok(s) => scan(&format!("{tag} graphical report"), s)?,
@@ -2317,6 +2358,25 @@ fn gen_all(ctx: &mut Ctx<C17>) {
             }
         }
         ctx.subspace("4 control characters x 9 run lengths x 6 tails x 4 targets x 4 (entry, radius)", idx, true);
+    }
+    t.flush(ctx);
+
+    // --- 5c. byte order mark in front of the text (locations do not count it, the text handed to the
+    // miette adapter still has it) ------------------------------------------------------------------
+    {
+        let mut idx = 0u64;
+        for body in ["a: 1\nb: xyz\n", "a: x\n", "- 1\n- [2, zz]\n", "k: \u{e9}\u{4e16} v\nb: [1, 2\n", "\n\n  a: {b: q}\n", "zz: 3\na: 1\n"] {
+            for target in [Target::MapI32, Target::Strict, Target::VecI32, Target::I32, Target::Enum] {
+                for (entry, crop) in [(Entry::Str, 64usize), (Entry::Slice, 5), (Entry::Reader7, 64), (Entry::Reader1, 64), (Entry::Multi, 64)] {
+                    idx += 1;
+                    if !ctx.mine(idx) {
+                        continue;
+                    }
+                    emit(ctx, &t, "bom-prefixed", format!("\u{feff}{body}"), target, entry, opts_with(crop, true));
+                }
+            }
+        }
+        ctx.subspace("6 documents behind a BOM x 5 targets x 5 (entry, radius)", idx, true);
     }
     t.flush(ctx);
 
